@@ -2,7 +2,7 @@ from . import COMMON_TB, NOTE
 
 PROP = {
     "modules": ["Proofs.RepEq", "Proofs.RepEqOps", "Proofs.RepEqProg", "Proofs.RepEqEval", "Proofs.RepEqRender",
-                "Proofs.RepEqStd", "Proofs.RepEqCmp", "Proofs.RepEqFilters"],
+                "Proofs.RepEqStd", "Proofs.RepEqCmp", "Proofs.RepEqFilters", "Proofs.RepEqSort"],
     "streams": [{"name": "reps"}],
     "rule": "reps: a logical environment (nil, bool, Go int, float64, string, []any, map[string]any; numbers at the boundaries of "
             "every integer width) and a template of independent statements from a restricted grammar whose uses of every variable "
@@ -34,12 +34,13 @@ TEXT = {
               'tree on the two runs in lock step: rel_renderNode; eval_rel for expressions; assign/capture/loop/forloop/cycle/'
               'include state threading); run_rep_independent_upto_unmodelled is the same up to the boundary of the model. '
               'Standard configuration (d = false): stdOut_respects (printing), opEq/opLt/opContains_prep_vrel and '
-              'equal_prep_repEq (comparisons), filterRespects_std (every standard filter except sort, uniq, sort_natural; '
-              'filterRespects_of_scalar: any filter whose parameters are all bool/int/float64/string/time, whatever its body) give '
-              'run_std_core_rep_independent: on the engine without sort/uniq/sort_natural every template renders to agreeing '
-              'results (equal, or one run is outside the model) for environments that differ in typed vs generic slices, fixed '
-              'arrays, typed maps at any depth and in drops/pointers around a binding; run_std_rep_independent_partial keeps '
-              'sort and sort_natural as explicit hypotheses. Forced restrictions are recorded as evaluated counterexamples in '
+              'equal_prep_repEq (comparisons), filterRespects_std / filterRespects_std_upto (every standard filter except uniq; '
+              'filterRespects_of_scalar: any filter whose parameters are all bool/int/float64/string/time, whatever its body; sort '
+              'and sort_natural through List.map_mergeSort, up to their unmodelled tie order) give '
+              'run_std_rep_independent_partial / run_std_rep_independent_without_uniq: on the standard engine with any set of '
+              'registered filters that excludes uniq every template renders to agreeing results (equal, or one run is outside the '
+              'model) for environments that differ in typed vs generic slices, fixed arrays, typed maps at any depth and in '
+              'drops/pointers around a binding. Forced restrictions are recorded as evaluated counterexamples in '
               'Proofs/C18.lean (uniq sees nested element types; fmt.Sprint shows drops inside maps and under string filters; a '
               'drop yielding a drop inside an array under values.Equal; only Go int indexes, bounds a range and sets '
               'limit/offset/cols; a fixed-array needle against a fixed-array MapSlice key). The per-construct theorems '
@@ -48,9 +49,8 @@ TEXT = {
               'requires all representations to render identically on the real engine.'),
     "design_ref": 'DESIGN.md 6 C18',
     "note": NOTE + ('The whole-template theorem is parametric in the value layer; for the standard layer it is proved for the '
-              'relation without drops nested in containers (d = false), up to unmodelled results, and without the filters sort, '
-              'uniq, sort_natural (uniq does not respect the equivalence; sort and sort_natural are open hypotheses of '
-              'run_std_rep_independent_partial). Numeric width, []byte-as-string and MapSlice-as-map are covered by the '
+              'relation without drops nested in containers (d = false), up to unmodelled results, and without the filter uniq '
+              '(which does not respect the equivalence: counterexample in Proofs/C18.lean). Numeric width, []byte-as-string and MapSlice-as-map are covered by the '
               'per-construct theorems and the reps stream only.'),
     "technique": ('Lean 4 proof (normal form of representations, two-run logical relation over the interaction trees, mutual '
               'induction over the compiled template; case analysis on the value representation) + model/implementation correspondence + metamorphic '
